@@ -3,8 +3,10 @@ package main
 import (
 	"fmt"
 	"go/ast"
+	"go/parser"
 	"go/token"
 	"go/types"
+	"os"
 	"strings"
 )
 
@@ -41,6 +43,12 @@ func c18r1(p *Program, r *Report) {
 			classify := func(fn *FuncInfo, e ast.Expr) (clears, plain bool) {
 				finfo := fn.Pkg.TypesInfo
 				e = ast.Unparen(e)
+				// a local holding the flags (plain := f.flags &^ flagCompress)
+				if id, isId := e.(*ast.Ident); isId {
+					if d := localDef(finfo, fn, id); d != nil {
+						e = ast.Unparen(d)
+					}
+				}
 				if call, ok := e.(*ast.CallExpr); ok {
 					if f := calleeOf(finfo, call); f != nil {
 						if h := p.FuncOf(f); h != nil && h.Decl.Body != nil && len(h.Decl.Body.List) == 1 {
@@ -143,28 +151,64 @@ func c18r4(p *Program, r *Report) {
 		n++
 		// advertisedAt: node sits in a range over the server's COMPRESSION list under equality of the loop variable
 		// with the configured compressor's name
-		advertisedAt := func(node ast.Node) bool {
-			f, _ := facts.Before(p.stmtOf(node, fi))
-			rs, _ := p.enclosing(node, fi.Decl, func(m ast.Node) bool { _, ok := m.(*ast.RangeStmt); return ok }).(*ast.RangeStmt)
-			if rs == nil {
-				return false
+		// isCompName: e is the configured compressor's name (directly or through locals)
+		isCompName := func(e ast.Expr) bool {
+			for depth := 0; depth < 4; depth++ {
+				if strings.HasSuffix(p.canonText(fi, e), ".compressor.Name()") {
+					return true
+				}
+				// X.Name() with X a local copy of the compressor field
+				if c, isC := ast.Unparen(e).(*ast.CallExpr); isC && len(c.Args) == 0 {
+					if sel, isSel := ast.Unparen(c.Fun).(*ast.SelectorExpr); isSel && sel.Sel.Name == "Name" {
+						rx := ast.Unparen(sel.X)
+						for d2 := 0; d2 < 3; d2++ {
+							if strings.HasSuffix(strings.ReplaceAll(exprStr(rx), " ", ""), ".compressor") {
+								return true
+							}
+							rid, isId := rx.(*ast.Ident)
+							if !isId || info.Uses[rid] == nil || !singleAssigned(info, fi.Decl.Body, info.Uses[rid]) {
+								break
+							}
+							def := localDefMulti(info, fi, rid)
+							if def == nil {
+								break
+							}
+							rx = ast.Unparen(def)
+						}
+					}
+				}
+				id, isId := ast.Unparen(e).(*ast.Ident)
+				if !isId {
+					return false
+				}
+				d := localDefMulti(info, fi, id)
+				if d == nil || info.Uses[id] == nil || !singleAssigned(info, fi.Decl.Body, info.Uses[id]) {
+					return false
+				}
+				e = d
 			}
-			src := p.canonText(fi, rs.X)
-			if id, ok := ast.Unparen(rs.X).(*ast.Ident); ok && !strings.Contains(src, `["COMPRESSION"]`) {
-				// comp, ok := supported["COMPRESSION"]
+			return false
+		}
+		// isServerList: e is the server's list of COMPRESSION algorithms (the SUPPORTED multimap entry, or a local
+		// bound to it), not the options map being built
+		isServerList := func(e ast.Expr) bool {
+			src := p.canonText(fi, e)
+			if id, ok := ast.Unparen(e).(*ast.Ident); ok && !strings.Contains(src, `["COMPRESSION"]`) {
 				if d := localDefMulti(info, fi, id); d != nil {
-					src = p.canonText(fi, d)
 					if isCompKey(ast.Unparen(d)) {
 						return false
 					}
+					src = p.canonText(fi, d)
 				}
 			}
-			if !strings.Contains(src, `["COMPRESSION"]`) || isCompKey(ast.Unparen(p.expandExpr(fi, rs.X, 0))) {
-				return false
-			}
-			loopVar := ""
-			if rs.Value != nil {
-				loopVar = exprStr(rs.Value)
+			return strings.Contains(src, `["COMPRESSION"]`) && !isCompKey(ast.Unparen(p.expandExpr(fi, e, 0)))
+		}
+		// advertisedAt: at node an element of the server's COMPRESSION list is known to equal the configured
+		// compressor's name (the loop variable of a range over the list, or list[i]); returns that element's text
+		advertisedElem := func(node ast.Node) (string, bool) {
+			f, _ := facts.Before(p.stmtOf(node, fi))
+			if os.Getenv("DBGC18") != "" {
+				fmt.Println("DBGC18 facts at", p.Pos(node), f.m)
 			}
 			for atom, v := range f.m {
 				if !v || !strings.Contains(atom, " == ") {
@@ -173,26 +217,61 @@ func c18r4(p *Program, r *Report) {
 				parts := strings.SplitN(atom, " == ", 2)
 				for i := 0; i < 2; i++ {
 					a, b := parts[i], parts[1-i]
-					if a != loopVar {
+					ae, err1 := parser.ParseExpr(a)
+					be, err2 := parser.ParseExpr(b)
+					if err1 != nil || err2 != nil {
 						continue
 					}
-					// the other side is the compressor's name (directly or through a local)
-					if strings.HasSuffix(b, ".compressor.Name()") {
-						return true
-					}
-					nameOK := false
-					ast.Inspect(fi.Decl.Body, func(m ast.Node) bool {
-						if a2, ok := m.(*ast.AssignStmt); ok && len(a2.Rhs) == 1 && len(a2.Lhs) == 1 && exprStr(a2.Lhs[0]) == b && strings.HasSuffix(exprStr(a2.Rhs[0]), ".compressor.Name()") {
-							nameOK = true
+					// a: an element of the list
+					isElem := false
+					switch x := ae.(type) {
+					case *ast.Ident:
+						for cur := p.Parent(node); cur != nil && cur != ast.Node(fi.Decl); cur = p.Parent(cur) {
+							if rs, isR := cur.(*ast.RangeStmt); isR && rs.Value != nil && exprStr(rs.Value) == x.Name && isServerList(rs.X) {
+								isElem = true
+							}
 						}
-						return true
-					})
-					if nameOK {
-						return true
+					case *ast.IndexExpr:
+						if lid, isId := x.X.(*ast.Ident); isId {
+							if real := identNamed(fi, lid.Name); real != nil && isServerList(real) {
+								isElem = true
+							}
+						} else if strings.Contains(strings.ReplaceAll(exprStr(x.X), " ", ""), `["COMPRESSION"]`) {
+							if sel, isIx := x.X.(*ast.IndexExpr); isIx {
+								if mid, isId := sel.X.(*ast.Ident); isId {
+									if real := identNamed(fi, mid.Name); real != nil {
+										if t := info.TypeOf(real); t != nil {
+											if m, isM := t.Underlying().(*types.Map); isM {
+												if _, isSl := m.Elem().Underlying().(*types.Slice); isSl {
+													isElem = true
+												}
+											}
+										}
+									}
+								}
+							}
+						}
+					}
+					if !isElem {
+						continue
+					}
+					// b: the compressor's name
+					okName := strings.HasSuffix(strings.ReplaceAll(b, " ", ""), ".compressor.Name()")
+					if bid, isId := be.(*ast.Ident); isId {
+						if real := identNamed(fi, bid.Name); real != nil && isCompName(real) {
+							okName = true
+						}
+					}
+					if okName {
+						return strings.ReplaceAll(a, " ", ""), true
 					}
 				}
 			}
-			return false
+			return "", false
+		}
+		advertisedAt := func(node ast.Node) bool {
+			_, ok := advertisedElem(node)
+			return ok
 		}
 		okReq := advertisedAt(as)
 		how := "inside the loop over the server's COMPRESSION list, under equality with compressor.Name()"
@@ -269,7 +348,11 @@ func c18r4(p *Program, r *Report) {
 			// the value requested must then be the compressor's name
 			if okReq {
 				v := exprStr(ast.Unparen(as.Rhs[0]))
-				isName := strings.HasSuffix(v, ".compressor.Name()")
+				isName := strings.HasSuffix(v, ".compressor.Name()") || isCompName(as.Rhs[0])
+				// or the list element that is known to equal the name
+				if el, ok := advertisedElem(as); ok && strings.ReplaceAll(v, " ", "") == el {
+					isName = true
+				}
 				if id, ok := ast.Unparen(as.Rhs[0]).(*ast.Ident); ok {
 					if d := localDef(info, fi, id); d != nil && strings.HasSuffix(exprStr(d), ".compressor.Name()") && singleAssigned(info, fi.Decl.Body, info.Uses[id]) {
 						isName = true
@@ -316,9 +399,9 @@ func c18r4(p *Program, r *Report) {
 							}
 							return noComp(b.X, true) && noComp(b.Y, true)
 						case token.EQL:
-							return strings.HasSuffix(exprStr(b.X), ".compressor") && isNil(info, b.Y) && val
+							return strings.HasSuffix(p.canonText(fi, b.X), ".compressor") && isNil(info, b.Y) && val
 						case token.NEQ:
-							return strings.HasSuffix(exprStr(b.X), ".compressor") && isNil(info, b.Y) && !val
+							return strings.HasSuffix(p.canonText(fi, b.X), ".compressor") && isNil(info, b.Y) && !val
 						}
 					}
 					return false
@@ -458,44 +541,62 @@ func c18r5(p *Program, r *Report) {
 	rr.Check(retOK && retN == 4 && retHi == nVar && nVar != "", enc.Decl, "lz4 Encode returns prefix plus block", "buf[:n+4]", fmt.Sprintf("Encode returns %s[:%s+%d] instead of the 4-byte prefix plus the n compressed bytes", bufName, retHi, retN))
 	dg := lp.GraphOf(dec)
 	dinfo := dg.Info
-	facts := dg.GuardFacts()
 	nread := 0
-	ast.Inspect(dec.Decl.Body, func(x ast.Node) bool {
-		c, ok := x.(*ast.CallExpr)
-		if !ok {
-			return true
+	dataName := "data"
+	if po := paramObj(dinfo, dec.Decl.Type, 0); po != nil {
+		dataName = po.Name()
+	}
+	// Decode and the unexported helpers it was split into
+	units := []*FuncInfo{dec}
+	for _, h := range lp.privateCallees(dec) {
+		if h.Pkg == dec.Pkg && h.Decl.Body != nil {
+			units = append(units, h)
 		}
-		name := calleeName(dinfo, c)
-		var srcArg ast.Expr
-		if len(c.Args) == 1 {
-			srcArg = c.Args[0]
-		}
-		if si, be, ok := lz4GetHelper(lp, dinfo, c); ok {
-			srcArg = c.Args[si]
-			name = "binary.(littleEndian).Uint32"
-			if be {
-				name = "binary.(bigEndian).Uint32"
+	}
+	for _, u := range units {
+		ug := lp.GraphOf(u)
+		uinfo := ug.Info
+		facts := ug.GuardFacts()
+		ast.Inspect(u.Decl.Body, func(x ast.Node) bool {
+			c, ok := x.(*ast.CallExpr)
+			if !ok {
+				return true
 			}
-		}
-		switch name {
-		case "binary.(bigEndian).Uint32":
-			nread++
-			f, _ := facts.Before(lp.stmtOf(c, dec))
-			d := newDBM(dg, f, nil)
-			b, lo, _, okR := lp.sliceRegion(dec, srcArg)
-			dataE := ast.Expr(ast.NewIdent(b))
-			d.noteLen(dataE)
-			lt, lk, ok := d.term(lenCall(dataE))
-			rr.Check(okR && b == "data" && lo == 0 && ok && d.le(zeroNode, 4, lt, lk), c, "lz4 Decode reads the length field at offset 0 after checking for 4 bytes", "len(data) >= 4 known", "Decode reads the length prefix without having checked that 4 bytes are present (or not from offset 0)")
-		case "binary.(littleEndian).Uint32":
-			nread++
-			rr.Bad(c, "lz4 Decode reads the length field big-endian", "the length prefix is read little-endian")
-		case "lz4.UncompressBlock":
-			b, lo, _, okR := lp.sliceRegion(dec, c.Args[0])
-			rr.Check(len(c.Args) == 2 && okR && b == "data" && lo == 4, c, "lz4 Decode decompresses the bytes after the prefix", "UncompressBlock(data[4:], buf)", fmt.Sprintf("Decode decompresses %s+%d instead of the bytes after the 4-byte prefix", b, lo))
-		}
-		return true
-	})
+			name := calleeName(uinfo, c)
+			var srcArg ast.Expr
+			if len(c.Args) == 1 {
+				srcArg = c.Args[0]
+			}
+			if si, be, ok := lz4GetHelper(lp, uinfo, c); ok {
+				srcArg = c.Args[si]
+				name = "binary.(littleEndian).Uint32"
+				if be {
+					name = "binary.(bigEndian).Uint32"
+				}
+			}
+			switch name {
+			case "binary.(bigEndian).Uint32":
+				nread++
+				f, _ := facts.Before(lp.stmtOf(c, u))
+				d := newDBM(ug, f, nil)
+				// the bytes read, in terms of this function's variables (for the length check) ...
+				b0, lo0, _, okR0 := lp.sliceRegion(u, srcArg)
+				dataE := ast.Expr(ast.NewIdent(b0))
+				d.noteLen(dataE)
+				lt, lk, ok := d.term(lenCall(dataE))
+				// ... and in terms of Decode's input (for the offset)
+				b, lo, okR := lp.sliceRegionIP(u, srcArg, dec, 0)
+				rr.Check(okR0 && okR && b == dataName && lo == 0 && ok && d.le(zeroNode, int(lo0)+4, lt, lk), c, "lz4 Decode reads the length field at offset 0 after checking for 4 bytes", "len(data) >= 4 known", "Decode reads the length prefix without having checked that 4 bytes are present (or not from offset 0)")
+			case "binary.(littleEndian).Uint32":
+				nread++
+				rr.Bad(c, "lz4 Decode reads the length field big-endian", "the length prefix is read little-endian")
+			case "lz4.UncompressBlock":
+				b, lo, okR := lp.sliceRegionIP(u, c.Args[0], dec, 0)
+				rr.Check(len(c.Args) == 2 && okR && b == dataName && lo == 4, c, "lz4 Decode decompresses the bytes after the prefix", "UncompressBlock(data[4:], buf)", fmt.Sprintf("Decode decompresses %s+%d instead of the bytes after the 4-byte prefix", b, lo))
+			}
+			return true
+		})
+	}
 	if nread == 0 {
 		rr.Bad(dec.Decl, "lz4 Decode reads the length prefix", "Decode never reads the uncompressed length")
 	}
@@ -538,6 +639,104 @@ func c18r5(p *Program, r *Report) {
 	r.Obls = append(r.Obls, rr.Obls...)
 	r.Unres = append(r.Unres, rr.Unres...)
 	_ = types.Typ
+}
+
+// sliceRegionIP is sliceRegion across the helpers a function was split into: a local bound to a result of a helper
+// is the region that helper returns (in terms of the argument it was given), and a parameter of a helper of root
+// is the region its (only) caller passes. The base is a variable of root when the translation succeeds.
+func (p *Program) sliceRegionIP(fi *FuncInfo, e ast.Expr, root *FuncInfo, depth int) (string, int64, bool) {
+	b, lo, _, ok := p.sliceRegion(fi, e)
+	if !ok || depth > 3 {
+		return b, lo, ok
+	}
+	info := fi.Pkg.TypesInfo
+	id := identNamed(fi, b)
+	if id == nil {
+		return b, lo, ok
+	}
+	obj := info.Uses[id]
+	// a local bound to the i-th result of a helper
+	var call *ast.CallExpr
+	ri := -1
+	ndef := 0
+	ast.Inspect(fi.Decl.Body, func(x ast.Node) bool {
+		as, isAs := x.(*ast.AssignStmt)
+		if !isAs {
+			return true
+		}
+		for i, l := range as.Lhs {
+			lid, isId := l.(*ast.Ident)
+			if !isId || (info.Defs[lid] != obj && info.Uses[lid] != obj) {
+				continue
+			}
+			ndef++
+			if len(as.Rhs) == 1 && len(as.Lhs) > 1 {
+				if c, isC := ast.Unparen(as.Rhs[0]).(*ast.CallExpr); isC {
+					call, ri = c, i
+				}
+			}
+		}
+		return true
+	})
+	if call != nil && ndef == 1 {
+		if fn := calleeOf(info, call); fn != nil {
+			if h := p.FuncOf(fn); h != nil && h.Decl.Body != nil && h.Pkg == fi.Pkg {
+				hinfo := h.Pkg.TypesInfo
+				stable := p.stableParams(h)
+				outB, outLo, have, okAll := "", int64(0), false, true
+				inspectNoLit(h.Decl.Body, func(x ast.Node) bool {
+					rs, isR := x.(*ast.ReturnStmt)
+					if !isR || ri >= len(rs.Results) || isNil(hinfo, rs.Results[ri]) {
+						return true
+					}
+					hb, hlo, hok := p.sliceRegionIP(h, rs.Results[ri], nil, depth+1)
+					pid := identNamed(h, hb)
+					if !hok || pid == nil {
+						okAll = false
+						return true
+					}
+					k, isParam := stable[hinfo.Uses[pid]]
+					if !isParam || k < 0 || k >= len(call.Args) {
+						okAll = false
+						return true
+					}
+					cb, clo, cok := p.sliceRegionIP(fi, call.Args[k], root, depth+1)
+					if !cok || have && (cb != outB || clo+hlo != outLo) {
+						okAll = false
+						return true
+					}
+					outB, outLo, have = cb, clo+hlo, true
+					return true
+				})
+				if have && okAll {
+					return outB, lo + outLo, true
+				}
+				return b, lo, false
+			}
+		}
+	}
+	// a parameter of a helper: what its only caller passes
+	if root != nil && fi != root && fi.Obj != nil && !fi.Obj.Exported() {
+		if k, isParam := p.stableParams(fi)[obj]; isParam && k >= 0 {
+			var sites []argSite
+			for _, caller := range p.SortedFuncs() {
+				if caller.Decl.Body == nil || caller.Pkg != fi.Pkg {
+					continue
+				}
+				for _, cc := range callsIn(caller.Decl.Body) {
+					if fn := calleeOf(caller.Pkg.TypesInfo, cc); fn != nil && p.FuncOf(fn) == fi && k < len(cc.Args) {
+						sites = append(sites, argSite{caller, cc, cc.Args[k]})
+					}
+				}
+			}
+			if len(sites) == 1 && !p.usedAsValue(fi) {
+				cb, clo, cok := p.sliceRegionIP(sites[0].Fn, sites[0].Expr, root, depth+1)
+				return cb, lo + clo, cok
+			}
+			return b, lo, false
+		}
+	}
+	return b, lo, ok
 }
 
 // isContainsFunc: h(list []string, s string) bool returns true exactly when some element of list equals s: every
